@@ -73,7 +73,7 @@ Profile GetProfile(const std::string& name, bool thorough) {
   } else if (name == "C11") {
     p.twin_dyndep = true; p.check_convergence = false;
     p.gen.features |= F_DYNDEP | F_RESTAT | F_ORDERONLY;
-    p.w_dyndep_stir = 3;
+    p.w_dyndep_stir = 3; p.w_missing_dyndep_source = 2;
     p.gen.features &= ~F_REGEN;
     p.w_del_log = 0; p.w_del_depfile = 0; p.w_regen = 0; p.w_inflate_log = 0;
     p.pm_cmd_fail = 0; p.pm_interrupt = 0; p.pm_crash = 0; p.pm_editor = 0; p.buggify = false;
@@ -176,11 +176,14 @@ struct Driver {
     p.keeprsp = H(12) == 0;
     p.keepdepfile = H(12) == 0;
     p.tty = Pm(prof.pm_tty);
+    if (prof.pm_tty > 0 && H(4) == 0) { static const int kCol[] = {1, 2, 4, 1 | 2, 1 | 4, 8, 16, 32, 2 | 4, 8 | 2, 16 | 4, 1 | 32}; p.color_env = kCol[H(12)]; }
     p.cols = 20 + (int)H(100);
     p.status_mode = (int)H(3);
     if (Pm(prof.pm_load)) p.l = 1.0 + H(4);
     if (Pm(prof.pm_jobserver)) {
       p.jobserver = true; p.j = -1; p.js_tokens = (int)H(4); p.js_peers = (int)H(3); p.nproc = 1 + (int)H(4);
+      // one build in three spells MAKEFLAGS another way; a third of those say "no jobserver"
+      if (H(3) == 1) { p.js_variant = 1 + (int)H(8); if (p.js_variant > 3 && H(2)) p.js_variant = 1 + (int)H(3); if (p.js_variant == 8) p.j = 1 + (int)H(4); }
     }
     // command failures
     for (const Stmt& s : w.sc.stmts) {
@@ -214,6 +217,13 @@ struct Driver {
         int np = (int)H(8);
         for (int i = 0; i < np; i++) p.status_fmt += kPieces[H(36)];
         if (p.status_mode == 0) p.status_mode = 1 + (int)H(2);
+      }
+      if (H(4) == 0 && p.j != 1) {
+        // what a wrapper, a recursive make or a damaged environment may leave in MAKEFLAGS
+        static const char* kMf[] = {" ", "\t", "n", "k", "s", "-", "-j", "-j3", "--", "--jobserver-auth=", "--jobserver-fds=", "fifo:", "fifo:build.ninja", "fifo:.", "fifo:no/such", "3,4", "-1,-1", "3,", ",", "99999999999999999999,1", "=", "\xff", "--jobserver-auth=fifo:", "--jobserver-auth=x", "-l2", "0"};
+        int np = 1 + (int)H(7);
+        for (int i = 0; i < np; i++) p.makeflags += kMf[H(26)];
+        p.j = -1;   // an explicit -j makes ninja ignore MAKEFLAGS altogether
       }
     }
     if (prof.buggify && H(2) == 0) {
@@ -288,7 +298,7 @@ struct Driver {
     for (int round = 0; round < 2; round++) {
       InvPlan p = r.plan;
       p.fail.clear(); p.editor = false; p.on_signal = 0; p.fp = FaultPlan();
-      p.jobserver = r.plan.jobserver;
+      p.jobserver = r.plan.jobserver; p.js_variant = r.plan.js_variant;
       p.stream = ST_FORK0 + fork_index++;
       std::map<std::string, std::pair<uint64_t, int64_t>> before;
       for (auto& kv : f.k.fs.nodes) if (kv.second->kind == Inode::kFile) before[kv.first] = std::make_pair(Hash64(kv.second->data, 7), kv.second->mtime);
@@ -1855,6 +1865,31 @@ struct Driver {
     rr.stats.n["missing_source_builds"]++;
   }
 
+  // The same for a source file that only a dyndep file names as an input of a needed statement:
+  // with the information written into the manifest ninja refuses to build, so it must refuse here
+  // too (C11; the twin comparison of the exit status decides).
+  void DoMissingDyndepSource() {
+    std::vector<std::string> cands;
+    for (auto& p : EditableSources()) {
+      bool named = false;
+      for (const DyndepFile& f : w.sc.dyndeps) for (const DyndepEntry& e : f.entries)
+        if (e.stmt >= 0 && e.stmt < (int)w.sc.stmts.size() && w.sc.stmts[e.stmt].alive && std::find(e.imp_ins.begin(), e.imp_ins.end(), p) != e.imp_ins.end()) named = true;
+      if (named && w.k.Exists(p)) cands.push_back(p);
+    }
+    if (cands.empty()) return;
+    std::string p = cands[H((uint32_t)cands.size())];
+    w.k.Remove(p);
+    Note("source " + p + " (named by a dyndep file) disappears");
+    w.missing_source = p;
+    force_targets = true; forced_targets.clear();
+    DoBuild();
+    w.missing_source.clear();
+    if (dead) return;
+    w.k.WriteFile(p, w.SourceContent(p), true);
+    Note("source " + p + " is back");
+    rr.stats.n["missing_dyndep_source_builds"]++;
+  }
+
   void DoDeleteOutput() {
     std::vector<std::string> outs = AllOutputs();
     if (outs.empty()) return;
@@ -1952,7 +1987,7 @@ struct Driver {
       if (i == 0 && H(8) != 0) { DoBuild(); continue; }
       int ws[] = {prof.w_build, prof.w_edit, prof.w_touch, prof.w_del_out, prof.w_change_cmd, prof.w_change_rsp,
                   has_regen ? prof.w_regen * 4 : prof.w_regen, prof.w_del_log, prof.w_del_depfile, prof.w_clean, prof.w_cleandead, prof.w_tool_ro,
-                  prof.w_dry, prof.w_manifest_edit, prof.w_edit_includes, prof.w_empty_source, prof.w_inflate_log, prof.w_include_churn, prof.w_block_dir, invalid_dyndep_run ? 6 : 0, prof.damage ? 8 : 0, prof.subset_then_touch ? 3 : 0, prof.w_restat_tool, prof.w_missing_source, prof.w_dyndep_stir};
+                  prof.w_dry, prof.w_manifest_edit, prof.w_edit_includes, prof.w_empty_source, prof.w_inflate_log, prof.w_include_churn, prof.w_block_dir, invalid_dyndep_run ? 6 : 0, prof.damage ? 8 : 0, prof.subset_then_touch ? 3 : 0, prof.w_restat_tool, prof.w_missing_source, prof.w_dyndep_stir, prof.w_missing_dyndep_source};
       int total = 0;
       for (int x : ws) total += x;
       int c = (int)H((uint32_t)total), op = 0;
@@ -1984,6 +2019,7 @@ struct Driver {
         case 22: DoLogTool(); break;
         case 23: DoMissingSource(); break;
         case 24: DoDyndepStir(); break;
+        case 25: DoMissingDyndepSource(); break;
       }
     }
     // histories end with a build so that every change is exercised
